@@ -22,6 +22,7 @@ type profile struct {
 	scripts   []string
 	inputs    [][]int
 	fuel      int
+	keepParams bool // parameters a, b are never shadowed
 	noEv      bool // no trace events inside generators (goroutine-safe programs, C14 parallel)
 	plainFns  int  // number of plain (non-generator) functions per program (C13)
 	etaBait   bool // closures of the eta-reducible shape func(p) T { return f(p) }
@@ -351,7 +352,12 @@ func (g *gctx) stmts(max int, loopBody bool) []*Stmt {
 func (g *gctx) newVarName(shadowOK bool) string {
 	// shadowing: reuse a visible int variable's name (not declared in the current block)
 	if shadowOK && g.pct(35, "shadow") {
-		vars := g.visible(func(v vinfo) bool { return isIntLike(v.typ) && !g.declaredInCurrent(v.name) && v.name != "res" })
+		vars := g.visible(func(v vinfo) bool {
+			if g.prof.keepParams && (v.name == "a" || v.name == "b") {
+				return false // hand-written snippets injected into the program refer to the int parameters
+			}
+			return isIntLike(v.typ) && !g.declaredInCurrent(v.name) && v.name != "res"
+		})
 		if len(vars) > 0 {
 			g.prog.tag("shadow")
 			return vars[g.draw(len(vars), "shadowvar")].name
@@ -759,8 +765,19 @@ func (g *gctx) forStmt() []*Stmt {
 			if exit == "return" && g.ret == "int" {
 				exitStmt.E = &Expr{K: "var", Name: c}
 			}
-			body = append(body, &Stmt{K: "incdec", Name: c, Op: "++"},
-				&Stmt{K: "if", E: &Expr{K: "cmp", Op: ">", L: &Expr{K: "var", Name: c}, R: lit(1 + g.draw(3, "infn"))}, Body: []*Stmt{exitStmt}})
+			guard := &Stmt{K: "if", E: &Expr{K: "cmp", Op: ">", L: &Expr{K: "var", Name: c}, R: lit(1 + g.draw(3, "infn"))}, Body: []*Stmt{exitStmt}}
+			switch g.draw(10, "exitform") {
+			case 0, 1: // the exit sits in an else-if arm
+				guard = &Stmt{K: "if", E: &Expr{K: "cmp", Op: "<", L: &Expr{K: "var", Name: c}, R: lit(0)}, Body: []*Stmt{g.evStmt()}, ElseIf: guard}
+				g.prog.tag("loop-exit-in-else-if")
+			case 2: // ... in an else arm
+				guard = &Stmt{K: "if", E: &Expr{K: "cmp", Op: "<=", L: &Expr{K: "var", Name: c}, R: guard.E.R}, Body: []*Stmt{g.evStmt()}, HasElse: true, Else: []*Stmt{exitStmt}}
+			case 3: // ... in a switch case (a return, since break would leave the switch)
+				if exit == "return" {
+					guard = &Stmt{K: "switch", Cases: []*Case{{Exprs: []*Expr{guard.E}, Body: []*Stmt{exitStmt}}}}
+				}
+			}
+			body = append(body, &Stmt{K: "incdec", Name: c, Op: "++"}, guard)
 		} else {
 			g.prog.tag("infinite-generator")
 		}
@@ -1135,7 +1152,7 @@ func (g *gctx) crangeAssign() []*Stmt {
 	g.push(false)
 	ay := g.afterYield
 	s.Body = g.stmts(3, true)
-	if g.pct(40, "redecl") {
+	if g.pct(40, "redecl") && !g.declaredInCurrent(name) && !terminating(s.Body) && !endsInBranch(s.Body) {
 		// the body declares the loop variable's name again (own scope)
 		s.Body = append(s.Body, &Stmt{K: "decl", Name: name, E: &Expr{K: "bin", Op: "*", L: &Expr{K: "var", Name: name, T: it.Elem}, R: lit(2)}},
 			&Stmt{K: "ev", ID: g.ev(), Args: []*Expr{{K: "var", Name: name}}})
@@ -1192,6 +1209,11 @@ func genProgram(t *rapid.T, prof *profile, name string) *Program {
 		d.Body = g.stmts(5, false) // parameters and body share one scope
 		if g.yieldsInFn == 0 {
 			d.Body = append([]*Stmt{{K: "yield", E: &Expr{K: "var", Name: "a"}}}, d.Body...)
+		}
+		if prof.excl("break-after-yield-in-switch") {
+			if n := dropSwitchBreaks(d.Body, &g.nextEv); n > 0 {
+				p.tag("excluded:break-in-yielding-switch")
+			}
 		}
 		g.pop()
 		p.Decls = append(p.Decls, d)
@@ -1261,4 +1283,119 @@ func (g *gctx) consumerLoop() *Stmt {
 	s := g.crangeStmt()
 	s.Body = append([]*Stmt{{K: "assign", Name: "res", Op: "+=", E: &Expr{K: "var", Name: s.Name, T: s.Iter.Elem}}}, s.Body...)
 	return s
+}
+
+func endsInBranch(list []*Stmt) bool {
+	if len(list) == 0 {
+		return false
+	}
+	k := list[len(list)-1].K
+	return k == "break" || k == "continue" || k == "return" || k == "panic"
+}
+
+// ---- known-finding exclusion post-pass ------------------------------------------------------------
+
+func containsYieldStmt(list []*Stmt) bool {
+	found := false
+	var walk func(l []*Stmt)
+	walk = func(l []*Stmt) {
+		for _, s := range l {
+			if s == nil {
+				continue
+			}
+			switch s.K {
+			case "yield", "yieldraw", "yieldfrom":
+				found = true
+			case "raw", "rawsimple":
+				if containsAny(s.Raw, "$YIELD", "$YFROM") {
+					found = true
+				}
+			case "closure", "closure-assign":
+				continue
+			case "crange":
+				// a consumer-side range inside a generator only matters if its body yields
+			}
+			if s.Init != nil {
+				walk([]*Stmt{s.Init})
+			}
+			if s.Post != nil {
+				walk([]*Stmt{s.Post})
+			}
+			for _, ch := range s.children() {
+				walk(ch)
+			}
+		}
+	}
+	walk(list)
+	return found
+}
+
+func containsAny(s string, subs ...string) bool {
+	for _, x := range subs {
+		if len(x) <= len(s) {
+			for i := 0; i+len(x) <= len(s); i++ {
+				if s[i:i+len(x)] == x {
+					return true
+				}
+			}
+		}
+	}
+	return false
+}
+
+// dropSwitchBreaks replaces every break that targets a switch containing a yield (anywhere in the
+// switch) by an event statement: the known finding "break in a yielding switch" is triggered by any
+// such break that ends up inside a generated thunk, which depends on the statements around it.
+func dropSwitchBreaks(list []*Stmt, nextEv *int) (removed int) {
+	var inSwitch func(l []*Stmt) // l belongs to a yielding switch (not inside a nested loop/switch)
+	var walk func(l []*Stmt)
+	inSwitch = func(l []*Stmt) {
+		for i, s := range l {
+			switch s.K {
+			case "break":
+				*nextEv++
+				l[i] = &Stmt{K: "ev", ID: *nextEv}
+				removed++
+			case "if":
+				for cur := s; cur != nil; cur = cur.ElseIf {
+					inSwitch(cur.Body)
+					inSwitch(cur.Else)
+				}
+			case "block":
+				inSwitch(s.Body)
+			case "for", "range", "crange", "switch", "tswitch", "closure":
+				walk([]*Stmt{s}) // breaks inside target the nested statement
+			}
+		}
+	}
+	walk = func(l []*Stmt) {
+		for _, s := range l {
+			switch s.K {
+			case "switch", "tswitch":
+				yielding := (s.Init != nil && containsYieldStmt([]*Stmt{s.Init}))
+				for _, c := range s.Cases {
+					if containsYieldStmt(c.Body) {
+						yielding = true
+					}
+				}
+				for _, c := range s.Cases {
+					if yielding {
+						inSwitch(c.Body)
+					} else {
+						walk(c.Body)
+					}
+				}
+			case "closure":
+				if s.Fn != nil && s.Fn.Gen {
+					walk(s.Fn.Body)
+				}
+			default:
+				for _, ch := range s.children() {
+					walk(ch)
+				}
+			}
+		}
+	}
+	walk(list)
+	return
 }
